@@ -194,11 +194,15 @@ class MultiTerm(qcore.Query):
 
     def estimate_size(self, ixreader):
         fieldname = self.field()
+        if fieldname not in ixreader.schema:
+            return 0
         return sum(ixreader.doc_frequency(fieldname, btext)
                    for btext in self._btexts(ixreader))
 
     def estimate_min_size(self, ixreader):
         fieldname = self.field()
+        if fieldname not in ixreader.schema:
+            return 0
         return min(ixreader.doc_frequency(fieldname, text)
                    for text in self._btexts(ixreader))
 
@@ -207,6 +211,10 @@ class MultiTerm(qcore.Query):
 
         fieldname = self.field()
         constantscore = self.constantscore
+
+        if fieldname not in searcher.schema:
+            # Same policy as Term.matcher()
+            return matching.NullMatcher()
 
         reader = searcher.reader()
         qs = [Term(fieldname, word) for word in self._btexts(reader)
